@@ -2151,15 +2151,16 @@ def c19_sites(repo_root, tier):
             for n in own_nodes(fn):
                 if isinstance(n, ast.Subscript) and isinstance(n.ctx, ast.Load) and isinstance(n.slice, ast.Name) and n.slice.id == "key":
                     n_sub += 1
-                    guarded = any(isinstance(t, ast.Try) and any(x is n for st in t.body for x in ast.walk(st))
-                                  and any(h.type is None or any(k in ast.unparse(h.type) for k in ("KeyError", "LookupError", "Exception")) for h in t.handlers)
-                                  for t in ast.walk(fn))
+                    def _covers(t):
+                        names = " ".join(ast.unparse(h.type) if h.type is not None else "Exception" for h in t.handlers)
+                        return any(k in names for k in ("LookupError", "Exception")) or ("KeyError" in names and "IndexError" in names)
+                    guarded = any(isinstance(t, ast.Try) and any(x is n for st in t.body for x in ast.walk(st)) and _covers(t) for t in ast.walk(fn))
                     if not guarded:
                         bad.append(f"line {n.lineno}: {ast.unparse(n)}")
             if bad or any(isinstance(n, ast.Subscript) and isinstance(n.slice, ast.Name) and n.slice.id == "key" for n in own_nodes(fn)):
                 _ob(obs, f"{m.name}:{qual}/site.missing-property-is-nil", not bad,
-                    "item[key] is read inside a try that handles KeyError" if not bad
-                    else f"{bad[0]} outside try/except KeyError: an item without the property makes the filter fail with KeyError instead of treating it as nil")
+                    "item[key] is read inside a try that handles KeyError and IndexError" if not bad
+                    else f"{bad[0]} outside try/except (KeyError, IndexError): an item without the property (or shorter than an integer key) makes the filter fail with a bare lookup error instead of treating it as nil")
     _ob(obs, "liquid2.builtin.filters.find_filters:HasFilter.__call__/site.any-over-matches", ok, "has reduces any() over the match tests, not over the matching items (whose own truthiness is irrelevant)")
     return {"obligations": obs, "samples": [], "trusted": ["user __getitem__ is deterministic (the same lookup gives the same value in both forms)"], "functions": [],
             "assumptions": [], "not_covered": ["sort/uniq/compact/map/concat and list-slice laws, join on lists, base64 inverses: not under contract (site rules only for sorting and selection predicates)"]}
@@ -2249,6 +2250,17 @@ def c02_sites(repo_root, tier):
                 f"`{v}.value` is read where `{v}` is known to be a plain token (is_token_type / isinstance test, `Token` parameter, or stream.expect(..) just before)" if ok
                 else f"`{v}.value` is read from a token of unestablished kind: a path, range or template-string token there raises AttributeError instead of a Liquid syntax error")
     _ob(obs, "liquid2/site.token-value-reads.count", n_val >= 30, f"{n_val} reads of a token's .value outside the lexer")
+    # html.parser asserts on some malformed declarations: feeding it data-supplied text happens inside a try that handles AssertionError
+    hm = repo.module("liquid2.utils.html")
+    fn = hm.find("strip_tags") if hm else None
+    okh = False
+    if fn is not None:
+        feeds = [c for c in _calls(fn) if isinstance(c.func, ast.Attribute) and c.func.attr in ("feed", "close")]
+        okh = bool(feeds) and all(any(isinstance(t, ast.Try) and any(x is c for st in t.body for x in ast.walk(st))
+                                      and any(h.type is not None and "AssertionError" in ast.unparse(h.type) for h in t.handlers) for t in ast.walk(fn)) for c in feeds)
+    _ob(obs, "liquid2.utils.html:strip_tags/site.parser-assertions-handled", okh,
+        "HTMLParser.feed()/close() on data-supplied text sit in a try that handles AssertionError" if okh
+        else "HTMLParser.feed() of data-supplied text outside try/except AssertionError: '<![x>' escapes as AssertionError")
     # RenderContext.get[_async]: no assert on data-dependent values (a path whose root is not a name resolves to undefined)
     cm = repo.module("liquid2.context")
     for name in ("RenderContext.get", "RenderContext.get_async"):
